@@ -209,3 +209,40 @@ theorem stackXf_append (B : Rect) (s1 s2 : Stack) :
     rw [ih (a.bbox B), Xf.comp_assoc]
 
 end EG
+
+namespace EG
+open Tgt
+
+/-- Adapters that do not move coordinates. -/
+def Adapter.noShift : Adapter → Bool
+  | .clipped _ => true
+  | .converted _ => true
+  | _ => false
+
+/-- The range guard of the call with the box replaced (only `clear` looks at the box). -/
+theorem Call.ok_box (T T' : Rect) (c : Call) (h : c.Ok T) (hT' : T'.Ok) : c.Ok T' := by
+  cases c with
+  | clear col => exact hT'
+  | _ => exact h
+
+/-- Nestings of clipped and colour-converted targets need no guard beyond the user's inputs:
+the root's box and the call's area are empty or in `i32` range. -/
+theorem stackOk_of_noShift (B : Rect) (s : Stack) (c : Call) (hs : ∀ a ∈ s, a.noShift = true)
+    (hB : B.Ok) (hc : c.Ok B) : stackOk B s c := by
+  induction s generalizing B with
+  | nil => exact hc
+  | cons a rest ih =>
+    have ha := hs a List.mem_cons_self
+    have hrest : ∀ b ∈ rest, b.noShift = true := fun b hb => hs b (List.mem_cons_of_mem _ hb)
+    cases a with
+    | clipped r =>
+      have hB' : ((Adapter.clipped r).bbox B).Ok := Rect.ok_intersection_right r B hB
+      have h1 := ih _ hrest hB' (Call.ok_box B _ c hc hB')
+      exact ⟨h1, Adapter.clipped_lower_ok _ B _ (stackOk_lowered _ _ _ h1)⟩
+    | converted f =>
+      have h1 := ih ((Adapter.converted f).bbox B) hrest hB hc
+      exact ⟨h1, Adapter.converted_ok f B _ (stackOk_lowered _ _ _ h1)⟩
+    | cropped r => cases ha
+    | translated d => cases ha
+
+end EG
